@@ -112,6 +112,10 @@ class FnExec:
         trivial = z3.is_true(g)
         self.drain_axioms()
         text = label if label is not None else (norm_text(self.cf.text(node)) if node is not None else "")
+        if kind == "int-overflow" and text in self.c.iteration_counters and node is not None and \
+                node.get("kind") == "UnaryOperator" and node.get("opcode") == "++" and self.loop_stack:
+            self.assumptions_used.add("iteration-counter:%s:%s: %s" % (self.fname, text, self.c.iteration_counters[text]))
+            return
         lp = "".join("L%d." % k for k in self.loop_stack)
         base = "%s.%s.%s@%s%s" % (self.cf.name, self.fname, kind, lp, text)
         n = self.names.get(base, 0) + 1
